@@ -61,7 +61,10 @@ fn dump(q: &Qbvh<u32>, sh: &mut Shadow, op: &str, ret: usize, out: &mut String) 
 fn rd_box(a: &mut Args) -> Aabb { Aabb::new(d3::p(a), d3::p(a)) }
 
 /// replays a history; returns the final tree and the dump text; `None` tree on panic
-fn replay(a: &mut Args, with_dump: bool) -> (Option<Qbvh<u32>>, String) {
+fn replay(a: &mut Args, with_dump: bool) -> (Option<Qbvh<u32>>, String) { let (q, _, s) = replay_cur(a, with_dump); (q, s) }
+
+/// same, also returning the user's current leaf boxes
+pub fn replay_cur(a: &mut Args, with_dump: bool) -> (Option<Qbvh<u32>>, Vec<Aabb>, String) {
     let nops = a.u();
     let mut q: Qbvh<u32> = Qbvh::new();
     let mut ws = QbvhUpdateWorkspace::default();
@@ -101,10 +104,10 @@ fn replay(a: &mut Args, with_dump: bool) -> (Option<Qbvh<u32>>, String) {
                 _ => panic!("bad op"),
             }
         }));
-        if r.is_err() { out.push_str("PANIC ;"); return (None, out); }
+        if r.is_err() { out.push_str("PANIC ;"); return (None, cur, out); }
         if with_dump { dump(&q, &mut sh, &op, ret, &mut out); out.push(' '); }
     }
-    (Some(q), out.trim_end().to_string())
+    (Some(q), cur, out.trim_end().to_string())
 }
 
 pub fn exec(func: &str, a: &mut Args) -> String {
@@ -262,6 +265,22 @@ fn drain_history(r: &mut Rng, lat: bool) -> (String, String) {
     for id in 0..n { let b = gen_box(r, fam, lat); h.ins((id * 7) % 64, b); }
     let m = gen_margin(r, lat); h.refit(m);
     h.finish()
+}
+
+/// (for C07) a history ending with a refit, followed by `n` query points: `<history args> <point>`
+pub fn gen_history_for_queries(r: &mut Rng, thorough: bool, lat: bool, n: usize) -> Vec<(String, String)> {
+    let maxops = if thorough { 400 } else { 40 };
+    let var = r.below(10);
+    let mut h = if r.below(3) == 0 { root_split_history_h(r, var, lat) } else { random_history_h(r, maxops, lat, false) };
+    let m = gen_margin(r, lat); h.refit(m);
+    let live: Vec<usize> = (0..h.live.len()).filter(|i| h.live[*i]).collect();
+    let mut v = Vec::new();
+    for k in 0..n {
+        let p = if k % 2 == 0 || live.is_empty() { d3::gen_p(r, lat, 60.0) }
+            else { let b = h.boxes[*r.pick(&live)]; match r.below(3) { 0 => b.mins, 1 => d3::na::center(&b.mins, &b.maxs), _ => b.maxs + d3::gen_v(r, lat, 2.0) } };
+        v.push(("bf_point".to_string(), format!("{} {}", h.args(), d3::hp(&p))));
+    }
+    v
 }
 
 pub fn gen(r: &mut Rng, thorough: bool) -> Vec<(String, String)> {
